@@ -15,11 +15,11 @@ TEXT = {
  "C08": "theorems: reset functions generated iff -with-resets, ResetMCalls clears exactly M, ResetCalls clears all, recording restarts from empty",
  "C09": "theorems on type-parameter lists and the self-check line under WF.generic/WF.ensure; witnesses outside; search: go/types instantiation",
  "C10": "theorems on destination decision (findPkgPath model) and qualification; correspondence; search: type-check in the intended destination",
- "C11": "theorems: imports sorted, once, no dot/blank, vendor stripping; unique valid qualifiers for conflict-free inputs (partial for the resolver); correspondence + go/types resolution of every qualifier",
+ "C11": "theorems: imports sorted, once, no dot/blank, vendor stripping; frame of resolveImportConflict for every returning call (aliases only, each a unique name of its own path: every qualifier valid, for all runs); unique qualifiers for conflict-free and shallow conflicts (partial for cascades: reflected checker per input); correspondence (slow + in-memory fast stage) + go/types resolution of every qualifier",
  "C12": "scope invariant theorems of AddVar (partial) + model predicate namesOK evaluated on every generated input + go/types",
  "C13": "theorem c13_exported_spec (closed form of Exported over the regenerated initialism table), varNameForType rule, reserved list coverage",
  "C14": "theorem: model output independent of the map-iteration oracle under uniqueness; regenerated fact: no time/rand/env reads; repeated real generations byte-compared",
- "C15": "theorems c15_rm_independent / c15_remove_before_load about the regenerated main.run (run_eq_spec); CLI regenerations byte-compared over prior -out contents",
+ "C15": "theorems c15_rm_independent / c15_remove_before_load about the regenerated main.run (run_eq_spec); CLI regenerations byte-compared over prior -out contents; fixed point decided on every in-place job of the fast stage (output added to the package in memory, regenerated, byte-compared)",
  "C16": "theorems on the regenerated format dispatch and template header; formatter laws as explicit hypotheses checked dynamically on every output",
  "C17": "theorems c17_fail / c17_ok about the regenerated main.run for all flags, file systems, library behaviours and fault plans; c17_mock_shape decided on the regenerated Mocker.Mock; CLI fault enumeration",
  "C18": "theorem c18_only_out about the regenerated main.run + regenerated list of all os/exec/syscall references; tree snapshots around every CLI scenario",
@@ -50,7 +50,7 @@ for p in P:
 m = {
     "version": 1,
     "setup_cmd": "./setup.sh",
-    "hooks": {"guard": "verif", "enable": "none needed: the harness uses moq's public API and CLI only; no hook was added to /repo",
+    "hooks": {"guard": "verif", "enable": "nothing is committed to or written into /repo: two hook files kept under /verif/harness/overlay (build tag verif) are added to the build of the harness with `go build -tags verif -overlay <json>` (VerifMocker / VerifSynthetic: the real moq generating from a source package loaded in memory); the plain harness and the CLI are built from /repo untouched",
               "baseline_off_cmd": "for m in . pkg/moq/testpackages pkg/moq/testpackages/buildconstraints pkg/moq/testpackages/modules pkg/moq/testpackages/vendoring; do (cd /repo/$m && GOFLAGS=-mod=mod go test -vet=off -count=1 ./...); done",
               "source_commits": [], "add_only": True},
     "engines": [{"name": "lean-model+correspondence", "path": "/verif/check", "serves_properties": claimed,
